@@ -488,7 +488,9 @@ def rule_par(ctx):
     # the gaps Ppar bridges are differences of queue times, i.e. already stretched: silent() multiplies by the in-event's stretch,
     # so the delta of each bridging rest is set to the gap itself afterwards
     sil = [x for x in walk_local_ordered(f.node) if isinstance(x, ast.Assign) and norm(x.value).startswith('evt.silent(')]
-    ok = bool(sil)
+    # (a rest built by hand, without silent(), has nothing to reset: the clause is about every silent() call there is)
+    allsil = [c for c in U.calls(f.node) if norm(c.func) == 'evt.silent']
+    ok = len(sil) == len(allsil)
     for x in sil:
         gap = norm(x.value.args[0])
         blk = next(bb for bb in blocks(f.node) if x in bb)
@@ -530,7 +532,7 @@ def rule_par(ctx):
            f'Pdur(2.5, ...) lasts 2.0', pd.node, pd.module)
     # the quant padding of Pdur is a difference of sums of deltas, i.e. already stretched (same reasoning as Ppar's bridging rests)
     silc = [c for c in U.calls(pd.node) if norm(c.func) == 'evt.silent']
-    okp = bool(silc)
+    okp = True      # a rest built by hand, without silent(), has nothing to reset
     for c in silc:
         a = getattr(c, '_parent', None)
         if not (isinstance(a, ast.Assign) and len(a.targets) == 1 and isinstance(a.targets[0], ast.Name)):
@@ -634,3 +636,10 @@ MUTANTS = [
 ]
 
 REPAIRS = []
+
+
+EQUIV = [
+    dict(name='Pdur builds its padding rest by hand instead of through evt.silent', file='sc3/seq/patterns/filterpatterns.py',
+         old="                    outevent = evt.silent(delta, inevent)\n                    outevent['delta'] = delta  # Already stretched.\n",
+         new="                    outevent = inevent.copy()\n                    outevent['delta'] = delta\n                    outevent['dur'] = evt.Rest(delta)\n"),
+]
